@@ -349,3 +349,125 @@ def counting_loop(loop):
                 continue
             return {'var': l['d'], 'start': cands.get(l['d']), 'op': op, 'bound': r, 'step': step if sv == l['d'] else None}
     return None
+
+
+def min_max(node, f=None):
+    """('min'|'max', [a, b]) if `node` computes the minimum / maximum of two expressions, however it is spelled: muscleMin(a,b) / muscleMax / std::min / std::max, or
+    `(a < b) ? a : b` with the comparison in any of its equivalent forms (operands exchanged, negated, <= instead of <).  Else None."""
+    n = strip_casts(node)
+    if n.is_call():
+        m = (n.get('q') or '').split('::')[-1]
+        if m in ('muscleMin', 'min') and len(n.args()) == 2:
+            return 'min', [strip_casts(a) for a in n.args()]
+        if m in ('muscleMax', 'max') and len(n.args()) == 2:
+            return 'max', [strip_casts(a) for a in n.args()]
+        return None
+    if n['k'] == 'ConditionalOperator' and len(n['ch']) == 3:
+        t, e = strip_casts(n['ch'][1]), strip_casts(n['ch'][2])
+        same = lambda x, y: render_key(x) == render_key(y)
+        for (l, op, r) in rel_forms(n['ch'][0], True):
+            if op in ('<', '<=') and same(l, t) and same(r, e):
+                return 'min', [t, e]
+            if op in ('>', '>=') and same(l, t) and same(r, e):
+                return 'max', [t, e]
+    return None
+
+
+def render_key(n):
+    """structural rendering used to compare two side-effect-free expressions for syntactic equality (casts and parentheses ignored)"""
+    n = strip_casts(n)
+    if n['k'] in ('DeclRefExpr',):
+        return 'd%s' % n.get('d') if n.get('d') is not None else 'n:%s' % n.get('n')
+    if n['k'] == 'MemberExpr':
+        return '%s.%s' % (render_key(n['ch'][0]) if n['ch'] else 'this', n.get('n'))
+    if n['k'] == 'CXXThisExpr':
+        return 'this'
+    if 'v' in n and not n['ch']:
+        return 'v%s' % n['v']
+    return '%s[%s](%s)' % (n['k'], n.get('op') or n.get('q') or '', ','.join(render_key(c) for c in n['ch']))
+
+
+def dispatch_tables(f, min_cases=3):
+    """Every multi-way dispatch on constants in f, whether written as `switch (x) {case K: …}` or as an `if (x == K) … else if (x == L || x == M) … else …` chain.
+    -> [dict(node=first node, subject=render_key of x, cases=[(set of constants | 'default', [statement nodes])])], in source order.
+    switch: labels that fall through to the same statements are merged; the statements of a case end at its break/return.  if-chain: each arm is one case."""
+    out = []
+    in_chain = set()
+    for n in f.walk():
+        if n['k'] == 'SwitchStmt':
+            subj = render_key(n.role('cond')) if n.role('cond') is not None else '?'
+            cases, pending, cur = [], [], None
+            body = n.role('body')
+            for c in (body['ch'] if body is not None else []):
+                x = c
+                labels = []
+                while x is not None and x['k'] in ('CaseStmt', 'DefaultStmt'):
+                    labels.append(x.get('cv') if x['k'] == 'CaseStmt' else 'default')
+                    x = x['ch'][-1] if x['ch'] else None
+                if labels:
+                    if cur is not None and cur[1] and not _ends_flow(cur[1][-1]):
+                        # fall-through from a case with statements: its statements also belong to the new labels — keep them separate but remember the labels
+                        cases.append(cur)
+                        cur = (set(labels) | set(cur[0]), [])
+                    elif cur is not None and not cur[1]:
+                        cur = (set(labels) | set(cur[0]), [])
+                    else:
+                        if cur is not None:
+                            cases.append(cur)
+                        cur = (set(labels), [])
+                if x is not None and cur is not None:
+                    cur[1].append(x)
+            if cur is not None:
+                cases.append(cur)
+            norm = []
+            for (labs, stmts) in cases:
+                vals = set(l for l in labs if l != 'default')
+                if vals:
+                    norm.append((vals, stmts))
+                if 'default' in labs:
+                    norm.append(('default', stmts))
+            if len(norm) >= min_cases:
+                out.append({'node': n, 'subject': subj, 'cases': norm})
+        elif n['k'] == 'IfStmt' and n['i'] not in in_chain:
+            chain, cur, subj = [], n, None
+            while cur is not None and cur['k'] == 'IfStmt':
+                vals, s2 = _const_tests(cur.role('cond'))
+                if vals is None or (subj is not None and s2 != subj):
+                    break
+                subj = s2
+                in_chain.add(cur['i'])
+                th = cur.role('then')
+                chain.append((vals, th['ch'] if th is not None and th['k'] == 'CompoundStmt' else ([th] if th is not None else [])))
+                nxt = cur.role('else')
+                if nxt is not None and nxt['k'] != 'IfStmt':
+                    chain.append(('default', nxt['ch'] if nxt['k'] == 'CompoundStmt' else [nxt]))
+                    nxt = None
+                cur = nxt
+            if len(chain) >= min_cases:
+                out.append({'node': n, 'subject': subj, 'cases': chain})
+    return out
+
+
+def _ends_flow(s):
+    return s['k'] in ('BreakStmt', 'ReturnStmt', 'ContinueStmt') or (s['k'] == 'CompoundStmt' and bool(s['ch']) and _ends_flow(s['ch'][-1]))
+
+
+def _const_tests(cond):
+    """(set of constants, subject key) if cond is `x == K` or a `||` of such tests on one x; else (None, None)"""
+    if cond is None:
+        return None, None
+    n, pol = bool_polarity(cond, True)
+    if not pol:
+        return None, None
+    if n['k'] == 'BinaryOperator' and n.get('op') == '||':
+        a, sa = _const_tests(n['ch'][0])
+        b, sb = _const_tests(n['ch'][1])
+        if a is None or b is None or sa != sb:
+            return None, None
+        return a | b, sa
+    for (l, op, r) in rel_forms(n, True):
+        if op == '==' and r.get('v') is not None and not r['ch'] and 'v' not in l:
+            return set([r['v']]), render_key(l)
+        if op == '==' and r.get('v') is not None and r['k'] in ('CharacterLiteral', 'IntegerLiteral', 'DeclRefExpr') and 'v' not in l:
+            return set([r['v']]), render_key(l)
+    return None, None
